@@ -1133,6 +1133,11 @@ class GEPOp(IRDLOperation):
 
     def verify_(self) -> None:
         indices = tuple(self.rawConstantIndices.iter_values())
+        if indices.count(GEP_USE_SSA_VAL) != len(self.ssa_indices):
+            raise VerifyException(
+                f"expected as many dynamic indices as markers in rawConstantIndices "
+                f"({indices.count(GEP_USE_SSA_VAL)}), got {len(self.ssa_indices)}"
+            )
         # first index is pointer arithmetic; only subsequent ones need validation.
         current_type: Attribute = self.elem_type
         for i, idx in enumerate(indices[1:], start=1):
